@@ -1,5 +1,5 @@
 //! C15: the six drive modes of one program must be observationally equal.
-use crate::prog::{run_source, Drive};
+use crate::prog::{run_source, run_source_after, Drive};
 use crate::*;
 use serde_json::{json, Value};
 
@@ -67,9 +67,16 @@ pub fn cmd_record(args: &[String]) -> i32 {
     for i in 0..n {
         let b = 6 + g.rng.below(budget);
         let src = if i % 12 == 7 { late_stress(&mut g.rng) } else { g.program(b) };
+        // half of the programs start from an interpreter that is idle after an earlier source (driven by eval or by
+        // compile + run): "idle" does not mean "fresh"
+        let prior: Option<(String, bool)> = if i % 2 == 1 {
+            let n = 4 + g.rng.below(8);
+            let by_eval = g.rng.chance(1, 2);
+            Some((g.program(n), by_eval))
+        } else { None };
         let mut obs_all = vec![];
         for (drive, rec, name) in MODES.iter() {
-            let r = run_source(&src, *drive, *rec, 20_000);
+            let r = match &prior { Some(p) => run_source_after(p, &src, *drive, *rec, 20_000), None => run_source(&src, *drive, *rec, 20_000) };
             let o = observables(&r);
             let o = if r.panic.is_some() { json!({"panic": 1}) } else { o };
             let ev = json!({"run": i, "mode": name, "o": fnv(&o.to_string())});
@@ -82,7 +89,7 @@ pub fn cmd_record(args: &[String]) -> i32 {
             obs_all.push(json!({"mode": name, "obs": o, "panic": r.panic}));
         }
         distinct.insert(fnv(&src));
-        side.push_str(&json!({"run": i, "src": src, "modes": obs_all}).to_string());
+        side.push_str(&json!({"run": i, "src": match &prior { Some(p) => format!("[after {} `{}`] {}", if p.1 { "eval" } else { "compile+run" }, p.0, src), None => src.clone() }, "modes": obs_all}).to_string());
         side.push('\n');
     }
     std::fs::write(&args[0], trace).unwrap();
